@@ -8,6 +8,7 @@ From Verif.Base Require Import Bytes.
 From Verif.Tlog Require Import Index Tree Spec6962 Sha Tile TileReader TileReaderOld TileSpec.
 From Verif.Tlog Require Import ProofsTree Sha TileProofs TileProofsSound TileProofsExtract TileProofsComplete TileProofsHonest.
 From Verif.Tlog Require Import TileProofsHonestRun TileProofsInst TileProofsPath6962 TileProofsTrue TileProofsOld.
+From Verif.Tlog Require Import ProofsStore TilePathProofsBij NewTilesProofs NewTilesProofsData.
 
 (* Every hash returned and EVERY tile handed to SaveTiles is authenticated (for every hash function). *)
 Theorem C10_read_hashes_sound :
@@ -147,27 +148,167 @@ Theorem C10_read_hashes_complete_sha256 :
 Proof. exact read_hashes_complete_sha256. Qed.
 Print Assumptions C10_read_hashes_complete_sha256.
 
-(* NOT PROVED (validated by the correspondence run and the Go oracles only):
-   new_tiles_sufficient — for every growth history 0 = n0 <= ... <= nk = N, every tile planned by
-     make_plan N h ix is in new_tiles h n_i n_(i+1) for some i, and read_tile_data of it over
-     store_of recs is honest_tile (oracle "newtiles-sufficient": a publisher publishing exactly
-     NewTiles over random growth histories, a reader at every size; oracle "read-tile-data-true").
-   tile_path_bijection — valid_tile t -> parse_tile_path (tile_path t) = TOk t, and
-     parse_tile_path s = TOk t -> tile_path t = s /\ valid_tile t.  Proved below: the second
-     half's first conjunct (a parsed path is canonical).  The rest is validated by an independent
-     regular-expression grammar and round trips on ~27000 path strings per run. *)
+(* ---------------------------------------------------------------- tile paths *)
 
-Theorem C10_tile_path_bijection_partial :
-  forall s t, parse_tile_path s = TOk t ->
-    tile_path t = s /\
-    1 <= tH t <= 30 /\ -1 <= tL t /\ 1 <= tW t <= 2 ^ tH t /\ - 2 ^ 63 <= tN t < 2 ^ 63.
-Proof. intros s t H. split; [exact (parse_tile_path_canonical s t H)|exact (parse_tile_path_shape s t H)]. Qed.
-Print Assumptions C10_tile_path_bijection_partial.
+(* tile_path_bijection: Tile.Path and ParseTilePath are inverse bijections between the coordinates
+   1 <= H <= 30, -1 <= L < 2^63 (L = -1: data tiles), 0 <= N < 2^63, 1 <= W <= 2^H (TileSpec.valid_tile;
+   the bounds 2^63 are those of Go's int and of the int64 accumulator of ParseTilePath) and the
+   strings ParseTilePath accepts. *)
+Theorem C10_tile_path_bijection :
+  (forall t,
+     1 <= tH t <= 30 /\ -1 <= tL t < 2 ^ 63 /\ 0 <= tN t < 2 ^ 63 /\ 1 <= tW t <= 2 ^ tH t ->
+     parse_tile_path (tile_path t) = TOk t) /\
+  (forall s t,
+     parse_tile_path s = TOk t ->
+     tile_path t = s /\
+     (1 <= tH t <= 30 /\ -1 <= tL t < 2 ^ 63 /\ 0 <= tN t < 2 ^ 63 /\ 1 <= tW t <= 2 ^ tH t)).
+Proof. exact tile_path_bijection. Qed.
+Print Assumptions C10_tile_path_bijection.
 
-(* the partial theorem is not vacuous: the example of the tlog documentation *)
+(* hence: distinct valid tiles have distinct paths, and the accepted strings are exactly the paths of valid tiles *)
+Theorem C10_tile_path_inj :
+  forall t1 t2, valid_tile t1 -> valid_tile t2 -> tile_path t1 = tile_path t2 -> t1 = t2.
+Proof. exact tile_path_inj. Qed.
+Print Assumptions C10_tile_path_inj.
+
+Theorem C10_parse_tile_path_accepts :
+  forall s, (exists t, parse_tile_path s = TOk t) <-> (exists t, valid_tile t /\ s = tile_path t).
+Proof. exact parse_tile_path_accepts. Qed.
+Print Assumptions C10_parse_tile_path_accepts.
+
 Example C10_tile_path_example :
   parse_tile_path (B "tile/3/4/x001/x234/067.p/1") = TOk (mkTile 3 4 1234067 1) /\
   tile_path (mkTile 3 4 1234067 8) = B "tile/3/4/x001/x234/067" /\
   parse_tile_path (B "tile/3/data/000") = TOk (mkTile 3 (-1) 0 8) /\
   parse_tile_path (B "tile/3/4/001/x234/067") = TErr TEBadPath.
 Proof. vm_compute. repeat split; reflexivity. Qed.
+
+(* ---------------------------------------------------------------- NewTiles *)
+
+(* NewTiles never fails on int64 sizes; its members are: at every level L where the number of
+   level-L*h hashes changed (old >> h*L <> new >> h*L), the complete tiles from the old size's last
+   tile up to the new size's last complete tile, and the partial tile at the new right edge. *)
+Theorem C10_new_tiles_ok :
+  forall h old new, 1 <= h -> 0 <= old <= new -> new < 2 ^ 63 -> exists ts, new_tiles h old new = TOk ts.
+Proof. exact new_tiles_ok. Qed.
+Print Assumptions C10_new_tiles_ok.
+
+Theorem C10_new_tiles_in :
+  forall h old new ts t, 1 <= h -> 0 <= old <= new -> new_tiles h old new = TOk ts ->
+    (In t ts <->
+     tH t = h /\ 0 <= tL t /\
+     old / 2 ^ (h * tL t) <> new / 2 ^ (h * tL t) /\
+     ((tW t = 2 ^ h /\ old / 2 ^ (h * tL t) / 2 ^ h <= tN t < new / 2 ^ (h * tL t) / 2 ^ h) \/
+      (tN t = new / 2 ^ (h * tL t) / 2 ^ h /\ tW t = (new / 2 ^ (h * tL t)) mod 2 ^ h /\ 0 < tW t))).
+Proof. exact new_tiles_in. Qed.
+Print Assumptions C10_new_tiles_in.
+
+(* The tiles of height h of the tree of size N (NewTilesProofs.tree_tile h N t): at level L, with
+   c = N >> h*L hashes, the complete tiles n < c >> h and, if c is not a multiple of 2^h, the
+   partial tile (L, c >> h, c mod 2^h).  A reader of size N asks for no other tile: *)
+Theorem C10_make_plan_tiles_in_tree :
+  forall N h ix p, 1 <= h -> 0 <= N <= 2 ^ 62 -> make_plan N h ix = TOk p ->
+    Forall (fun t =>
+              tH t = h /\ 0 <= tL t /\ 0 <= tN t /\ 1 <= tW t <= 2 ^ h /\
+              tN t * 2 ^ h + tW t <= N / 2 ^ (h * tL t) /\
+              (tW t = 2 ^ h \/ tN t * 2 ^ h + tW t = N / 2 ^ (h * tL t))) (p_tiles p).
+Proof. exact make_plan_tiles_in_tree. Qed.
+Print Assumptions C10_make_plan_tiles_in_tree.
+
+(* new_tiles_sufficient.  For every growth history ns = [0 = n_0 <= n_1 <= ...] (int64 sizes) and
+   EVERY size n_j of it (each one is signed and may be seen by a reader, not only the last), every
+   tile of the tree of size n_j is an element of NewTiles(h, n_i, n_(i+1)) for a step i < j: it was
+   published at or before the step that signed n_j.  (For sizes the publisher never stepped
+   through nothing of the kind holds: the partial right-edge tiles of such a tree are never
+   published.  Readers only see signed sizes, so this is the statement the protocol needs.) *)
+Theorem C10_new_tiles_sufficient :
+  forall h ns, 1 <= h ->
+    (nth_error ns 0 = Some 0 /\
+     (forall i a b, nth_error ns i = Some a -> nth_error ns (S i) = Some b -> a <= b) /\
+     Forall (fun n => n < 2 ^ 63) ns) ->
+    forall j nj t, nth_error ns j = Some nj ->
+      (tH t = h /\ 0 <= tL t /\ 0 <= tN t /\ 1 <= tW t <= 2 ^ h /\
+       tN t * 2 ^ h + tW t <= nj / 2 ^ (h * tL t) /\
+       (tW t = 2 ^ h \/ tN t * 2 ^ h + tW t = nj / 2 ^ (h * tL t))) ->
+      exists i a b ts, (i < j)%nat /\ nth_error ns i = Some a /\ nth_error ns (S i) = Some b /\
+                       new_tiles h a b = TOk ts /\ In t ts.
+Proof. exact new_tiles_sufficient. Qed.
+Print Assumptions C10_new_tiles_sufficient.
+
+(* ... and nothing else is published: a member of NewTiles(h, n_i, n_(i+1)) is a tile of the tree of size n_(i+1) *)
+Theorem C10_published_tiles_are_tree_tiles :
+  forall h ns j t, 1 <= h -> growth ns -> published h ns j t ->
+    exists i b, (i < j)%nat /\ nth_error ns (S i) = Some b /\ tree_tile h b t.
+Proof. exact published_tiles_are_tree_tiles. Qed.
+Print Assumptions C10_published_tiles_are_tree_tiles.
+
+(* ReadTileData of a tile of the tree, over a store that holds the true hashes (store_holds T N st:
+   position StoredHashIndex(l, o) holds T (o*2^l) ((o+1)*2^l) for every complete subtree of the tree
+   of size N), is the honest tile content; in particular over the store built by appending the
+   records with StoredHashes. *)
+Theorem C10_read_tile_data_honest :
+  forall (T : Z -> Z -> hash) N st h t,
+    1 <= h -> 0 <= N -> store_holds T N st -> tree_tile h N t ->
+    read_tile_data t (reader_of st) = TOk (honest_tile T t).
+Proof. exact read_tile_data_honest. Qed.
+Print Assumptions C10_read_tile_data_honest.
+
+Theorem C10_read_tile_data_store_of :
+  forall (lh : str -> hash) (nh : hash -> hash -> hash) h recs t,
+    1 <= h -> zlen recs < 2 ^ 62 -> tree_tile h (zlen recs) t ->
+    read_tile_data t (reader_of (store_of lh nh recs)) = TOk (honest_tile (range_hash lh nh recs) t).
+Proof. exact read_tile_data_store_of. Qed.
+Print Assumptions C10_read_tile_data_store_of.
+
+(* Composition with read_hashes_complete.  serve_tiles pub is the TileReader of a server holding the
+   (tile, content) pairs pub (an error when a requested tile is missing).  If it holds every tile
+   published up to step j, each with honest content, every reader of the size n_j succeeds. *)
+Theorem C10_served_readers_succeed :
+  forall (nh : hash -> hash -> hash) (T : Z -> Z -> hash),
+    (forall lo hi, length (T lo hi) = 32%nat) ->
+    forall h ns j nj pub ix,
+      1 <= h <= 30 -> growth ns -> nth_error ns j = Some nj -> 0 < nj <= 2 ^ 62 ->
+      T_splits nh T nj ->
+      (forall t, published h ns j t -> exists d, In (t, d) pub) ->
+      (forall t d, In (t, d) pub -> d = honest_tile T t) ->
+      Forall (fun x => 0 <= x < stored_hash_index 0 nj) ix ->
+      exists sv, tile_read_hashes nh (nj, T 0 nj) h ix (serve_tiles pub) = (TOk (map (true_hash T) ix), Some sv).
+Proof. exact served_readers_succeed. Qed.
+Print Assumptions C10_served_readers_succeed.
+
+(* End to end, SHA-256: records recs, sizes ns signed one after the other.  publish_all … (firstn m ns)
+   is what a publisher has put out after m - 1 steps when at every step it publishes exactly
+   NewTiles(h, n_i, n_(i+1)), each with the bytes ReadTileData reads from its store of the first
+   n_(i+1) records.  Every reader of every size n_j signed so far (j < m) gets the true hashes. *)
+Theorem C10_publisher_lets_readers_succeed_sha256 :
+  forall h recs ns (m j : nat) nj ix,
+    1 <= h <= 30 -> zlen recs < 2 ^ 62 ->
+    (nth_error ns 0 = Some 0 /\
+     (forall i a b, nth_error ns i = Some a -> nth_error ns (S i) = Some b -> a <= b) /\
+     Forall (fun n => n < 2 ^ 63) ns) ->
+    Forall (fun n => n <= zlen recs) ns ->
+    (j < m)%nat -> nth_error ns j = Some nj -> 0 < nj ->
+    Forall (fun x => 0 <= x < stored_hash_index 0 nj) ix ->
+    exists sv,
+      tile_read_hashes node_hash_sha (nj, mth node_hash_sha (map record_hash (firstn (Z.to_nat nj) recs))) h ix
+                       (serve_tiles (publish_all record_hash node_hash_sha h recs (firstn m ns)))
+      = (TOk (map (true_hash (sha_range recs)) ix), Some sv).
+Proof. exact publisher_lets_readers_succeed_sha256. Qed.
+Print Assumptions C10_publisher_lets_readers_succeed_sha256.
+
+(* the hypotheses are satisfiable and the notions are not empty: the history 0, 5, 7 at height 2.
+   tile/2/0/001.p/1 is published at the first step (a tile of the tree of size 5 only), it is
+   replaced by tile/2/0/001.p/3 at the second. *)
+Example C10_new_tiles_example :
+  growth [0; 5; 7] /\
+  new_tiles 2 0 5 = TOk [mkTile 2 0 0 4; mkTile 2 0 1 1; mkTile 2 1 0 1] /\
+  new_tiles 2 5 7 = TOk [mkTile 2 0 1 3] /\
+  tree_tile 2 7 (mkTile 2 0 1 3) /\ tree_tile 2 5 (mkTile 2 0 1 1) /\ ~ tree_tile 2 7 (mkTile 2 0 1 1).
+Proof.
+  split; [|split; [reflexivity|split; [reflexivity|]]].
+  - split; [reflexivity|]. split.
+    + intros [|[|[|i]]] a b Ha Hb; cbn in Ha, Hb; try discriminate;
+        injection Ha as <-; injection Hb as <-; lia.
+    + repeat constructor.
+  - unfold tree_tile; cbn. repeat split; lia.
+Qed.
